@@ -37,9 +37,9 @@ PROPS = {
                 relevant=lambda e: e["e"] == "c_pkt" and e.get("pid", 0) > 1),
     "C09": dict(stages=[stages.l1_lifecycle], title="async_disconnect", prefixes=["C09_"], families=TRACE_FAMILIES,
                 relevant=lambda e: e["e"] == "call" and e.get("kind") == "disc"),
-    "C10": dict(title="CONNECT first, CONNACK gate, rotation and timing", prefixes=["C10_"], families=TRACE_FAMILIES,
+    "C10": dict(stages=[stages.l1_conn], title="CONNECT first, CONNACK gate, rotation and timing", prefixes=["C10_"], families=TRACE_FAMILIES,
                 relevant=lambda e: e["e"] == "resolve"),
-    "C11": dict(stages=[stages.c11_mutex], title="single-flight reconnection", prefixes=["C11_"], families=TRACE_FAMILIES,
+    "C11": dict(stages=[stages.c11_mutex, stages.l1_conn], title="single-flight reconnection", prefixes=["C11_"], families=TRACE_FAMILIES,
                 relevant=lambda e: e["e"] == "attempt"),
     "C12": dict(title="keep-alive", prefixes=["C12_"], families=TRACE_FAMILIES,
                 relevant=lambda e: e["e"] == "c_pkt" and e.get("type") == "PINGREQ" or (e["e"] == "c_read_end" and e.get("ec") == "timed_out")),
